@@ -1,5 +1,5 @@
 (** Pins/C06.v — the statements of the C06 theorems, pinned. *)
-From PdfV Require Import Base.Prelude Gen.Generated Crypt.Rc4 Crypt.Rc4Proofs Crypt.Model Crypt.Spec Crypt.Tables Crypt.Proofs Crypt.KdfProofs Properties.C06.
+From PdfV Require Import Base.Prelude Gen.Generated Crypt.Rc4 Crypt.Rc4Proofs Crypt.Model Crypt.Spec Crypt.Tables Crypt.Proofs Crypt.KdfProofs Crypt.Proofs56 Crypt.SafeProofs Properties.C06.
 
 Check C06_rc4_involution : forall k m, 1 <= lenN k <= 256 ->
   exists c, rc4 k m = Ok c /\ rc4 k c = Ok m /\ length c = length m.
@@ -7,7 +7,7 @@ Check C06_rc4_bad_key : forall k m, lenN k = 0 \/ 256 < lenN k -> rc4 k m = Pani
 Check C06_pkcs7 : forall m, pkcs7_unpad (pkcs7_pad m) = Some m.
 Check C06_tables : PADDING = spec_pad /\ crypt_salt = salt_tag /\
   crypt_constants = [1; 19; 3; 50; 4; 32; 16;  16; 3; 50; 2; 1; 20;  1; 40; 2; 8; 4; 6; 5; 2; 6;  4; 48; 48; 127; 64; 32; 64; 16;
-                     3; 16; 32; 32; 3; 2; 5; 16;  16; 16; 16] /\
+                     3; 16; 32; 32; 3; 2; 5; 16;  16; 16; 16;  32; 32] /\
   crypt_meta_bytes = [255; 255; 255; 255] /\
   crypt_r56_slices = [(0, 32); (32, 40); (40, 48); (0, 32); (32, 40); (40, 48)] /\
   crypt_kdf_arms = [(32, 256); (48, 384); (64, 512)].
@@ -53,3 +53,70 @@ Check C06_strf_refuted : ~ C06_full_statement.
 Check C06_kdf_refines : forall SHA256 SHA384 SHA512 AESE, (forall x, length (SHA256 x) = 32%nat) ->
   forall fuel pw salt u h, alg2b SHA256 SHA384 SHA512 AESE fuel pw salt u = Some h ->
   revision_6_kdf (fun x => Ok (SHA256 x)) (fun x => Ok (SHA384 x)) (fun x => Ok (SHA512 x)) (fun k iv x => Ok (AESE k iv x)) fuel pw salt u = Ok h.
+Check C06_from_password_56_refines : forall SHA256 SHA384 SHA512 AESE AESD PREP, (forall x, length (SHA256 x) = 32%nat) ->
+  forall fuel R m d pass p ue oe ru ro,
+  PREP pass = Some p -> lenN (d_u d) = 48 -> lenN (d_o d) = 48 ->
+  d_ue d = Some ue -> d_oe d = Some oe -> lenN ue mod 16 = 0 -> lenN oe mod 16 = 0 ->
+  alg2a_user SHA256 SHA384 SHA512 AESE AESD R fuel (pw56 p) (d_u d) ue = Some ru ->
+  (ru = None -> alg2a_owner SHA256 SHA384 SHA512 AESE AESD R fuel (pw56 p) (d_o d) (d_u d) oe = Some ro) ->
+  from_password_56 (fun x => Ok (SHA256 x)) (fun x => Ok (SHA384 x)) (fun x => Ok (SHA512 x))
+                (fun k iv x => Ok (AESE k iv x)) (fun k iv x => Ok (AESD k iv x)) (fun x => Ok (PREP x)) fuel R m d pass
+  = match ru with Some k => finish56 m d k | None => result56 m d ro end.
+Check C06_open_user_56 : forall MD5 SHA256 SHA384 SHA512 AESE AESD PREP,
+  (forall x, length (SHA256 x) = 32%nat) -> (forall x, length (SHA384 x) = 48%nat) -> (forall x, length (SHA512 x) = 64%nat) ->
+  (forall k iv x, lenN x mod 16 = 0 -> AESD k iv (AESE k iv x) = x) -> (forall k iv x, lenN (AESE k iv x) = lenN x) ->
+  forall fuel d id0 upw p R m hv hk vs ks fk oe,
+  std_56_dict d R m -> PREP upw = Some p ->
+  lenN vs = 8 -> lenN ks = 8 -> lenN fk = 32 ->
+  hash56 SHA256 SHA384 SHA512 AESE R fuel (pw56 p) vs [] = Some hv ->
+  hash56 SHA256 SHA384 SHA512 AESE R fuel (pw56 p) ks [] = Some hk ->
+  d_u d = alg8_U hv vs ks -> d_ue d = Some (alg8_UE AESE hk fk) ->
+  lenN (d_o d) = 48 -> d_oe d = Some oe -> lenN oe mod 16 = 0 ->
+  opens_with (from_password (fun x => Ok (MD5 x)) (fun x => Ok (SHA256 x)) (fun x => Ok (SHA384 x)) (fun x => Ok (SHA512 x))
+                (fun k iv x => Ok (AESE k iv x)) (fun k iv x => Ok (AESD k iv x)) (fun x => Ok (PREP x)) fuel d id0 upw)
+             32 fk m (em_of d).
+Check C06_open_owner_56 : forall MD5 SHA256 SHA384 SHA512 AESE AESD PREP,
+  (forall x, length (SHA256 x) = 32%nat) -> (forall x, length (SHA384 x) = 48%nat) -> (forall x, length (SHA512 x) = 64%nat) ->
+  (forall k iv x, lenN x mod 16 = 0 -> AESD k iv (AESE k iv x) = x) -> (forall k iv x, lenN (AESE k iv x) = lenN x) ->
+  forall fuel d id0 opw p R m hx ho hk vs ks fk ue,
+  std_56_dict d R m -> PREP opw = Some p ->
+  lenN vs = 8 -> lenN ks = 8 -> lenN fk = 32 ->
+  lenN (d_u d) = 48 -> d_ue d = Some ue -> lenN ue mod 16 = 0 ->
+  hash56 SHA256 SHA384 SHA512 AESE R fuel (pw56 p) (vsalt (d_u d)) [] = Some hx -> hx <> take 32 (d_u d) ->
+  hash56 SHA256 SHA384 SHA512 AESE R fuel (pw56 p) vs (d_u d) = Some ho ->
+  hash56 SHA256 SHA384 SHA512 AESE R fuel (pw56 p) ks (d_u d) = Some hk ->
+  d_o d = alg9_O ho vs ks -> d_oe d = Some (alg9_OE AESE hk fk) ->
+  opens_with (from_password (fun x => Ok (MD5 x)) (fun x => Ok (SHA256 x)) (fun x => Ok (SHA384 x)) (fun x => Ok (SHA512 x))
+                (fun k iv x => Ok (AESE k iv x)) (fun k iv x => Ok (AESD k iv x)) (fun x => Ok (PREP x)) fuel d id0 opw)
+             32 fk m (em_of d).
+Check C06_wrong_pw_56 : forall MD5 SHA256 SHA384 SHA512 AESE AESD PREP, (forall x, length (SHA256 x) = 32%nat) ->
+  forall fuel d id0 pw R m ue oe,
+  std_56_dict d R m -> lenN (d_u d) = 48 -> lenN (d_o d) = 48 ->
+  d_ue d = Some ue -> d_oe d = Some oe -> lenN ue mod 16 = 0 -> lenN oe mod 16 = 0 ->
+  (PREP pw = None \/
+   exists p, PREP pw = Some p /\
+     alg2a_user SHA256 SHA384 SHA512 AESE AESD R fuel (pw56 p) (d_u d) ue = Some None /\
+     alg2a_owner SHA256 SHA384 SHA512 AESE AESD R fuel (pw56 p) (d_o d) (d_u d) oe = Some None) ->
+  from_password (fun x => Ok (MD5 x)) (fun x => Ok (SHA256 x)) (fun x => Ok (SHA384 x)) (fun x => Ok (SHA512 x))
+                (fun k iv x => Ok (AESE k iv x)) (fun k iv x => Ok (AESD k iv x)) (fun x => Ok (PREP x)) fuel d id0 pw
+  = Err E_INVALID_PASSWORD.
+Check C06_accepted_iff_56 : forall MD5 SHA256 SHA384 SHA512 AESE AESD PREP, (forall x, length (SHA256 x) = 32%nat) ->
+  forall fuel d id0 pw p R m ue oe ru ro,
+  std_56_dict d R m -> PREP pw = Some p -> lenN (d_u d) = 48 -> lenN (d_o d) = 48 ->
+  d_ue d = Some ue -> d_oe d = Some oe -> lenN ue mod 16 = 0 -> lenN oe mod 16 = 0 ->
+  alg2a_user SHA256 SHA384 SHA512 AESE AESD R fuel (pw56 p) (d_u d) ue = Some ru ->
+  alg2a_owner SHA256 SHA384 SHA512 AESE AESD R fuel (pw56 p) (d_o d) (d_u d) oe = Some ro ->
+  ((exists dc, from_password (fun x => Ok (MD5 x)) (fun x => Ok (SHA256 x)) (fun x => Ok (SHA384 x)) (fun x => Ok (SHA512 x))
+                (fun k iv x => Ok (AESE k iv x)) (fun k iv x => Ok (AESD k iv x)) (fun x => Ok (PREP x)) fuel d id0 pw = Ok dc) <->
+   (exists k, lenN k = 32 /\ (ru = Some k \/ (ru = None /\ ro = Some k)))).
+Check C06_no_panic : forall MD5 SHA256 SHA384 SHA512 AESE AESD PREP, (forall x, length (MD5 x) = 16%nat) ->
+  forall fuel d id0 pass s,
+  from_password (fun x => Ok (MD5 x)) (fun x => Ok (SHA256 x)) (fun x => Ok (SHA384 x)) (fun x => Ok (SHA512 x))
+                (fun k iv x => Ok (AESE k iv x)) (fun k iv x => Ok (AESD k iv x)) (fun x => Ok (PREP x)) fuel d id0 pass
+  <> Panic s.
+Check C06_decrypt_no_panic : forall MD5 SHA256 SHA384 SHA512 AESE AESD PREP, (forall x, length (MD5 x) = 16%nat) ->
+  forall fuel d id0 pass enc meta dc num gen data s,
+  load_decoder (fun x => Ok (MD5 x)) (fun x => Ok (SHA256 x)) (fun x => Ok (SHA384 x)) (fun x => Ok (SHA512 x))
+                (fun k iv x => Ok (AESE k iv x)) (fun k iv x => Ok (AESD k iv x)) (fun x => Ok (PREP x)) fuel d id0 pass enc meta = Ok dc ->
+  decrypt (fun x => Ok (MD5 x)) (fun k iv x => Ok (AESD k iv x)) dc num gen data <> Panic s /\
+  ctx_decrypt (fun x => Ok (MD5 x)) (fun k iv x => Ok (AESD k iv x)) (Some dc) num gen data <> Panic s.
